@@ -30,6 +30,28 @@ def shared_forward_grammar(rng):
     return (shape, ("and", F, t1, t2), ("and", F, t1), ("group", ("and", F, t3)))
 
 
+PRIORITY = ["seed_read", "peek_tainted", "peek_replaced", "peek_error", "seed_returned", "key_error"]
+
+
+def report(ctx, g, env, inp, mode, entry):
+    """a divergence between left-recursion mode and memoization off on the implementation.  When the model predicts the
+    implementation's answer in this mode AND its run raises one of the flags of Model/LRT.v, the divergence is an instance of that
+    mechanism (Props/C03.v proves there is no divergence without a flag) and is keyed by it; otherwise it is keyed by the input."""
+    a = pcommon.single(g, env, inp, ("none",), entry)
+    b = pcommon.single(g, env, inp, mode, entry)
+    flags = b.get("flags") or ()
+    what = "enable_left_recursion(%r) changes the outcome of %r (env %r) on %r: off=%r on=%r" % (
+        mode[1], g, env, inp, corr.proj_all(a["real"]), corr.proj_all(b["real"]))
+    if b.get("agree") and a.get("agree") and flags:
+        first = [f for f in PRIORITY if f in flags][0]
+        key = "lr-divergence:" + first
+        what += " [model agrees; mechanism flags raised: %s]" % ",".join(flags)
+    else:
+        key = "outcome:%r|%r|%r|%r|%r" % (g, env, inp, mode, entry)
+        what += " [model %s; flags %s]" % ("agrees" if b.get("agree") else "gives %r" % (corr.proj_all(b["model"]),), ",".join(flags) or "none")
+    ctx.violation(key, what, {"kind": "outcome", "grammar": g, "env": env, "input": inp, "mode": mode, "entry": entry})
+
+
 def correspond(ctx):
     corr.ensure_driver()
     rng = ctx.rng
@@ -47,8 +69,21 @@ def correspond(ctx):
     # the witness of the repaired defect F-03 always runs
     groups.append((("mf", ("and", ("fwd", 0), ("lit", "b"), ("lit", "c")), ("and", ("fwd", 0), ("lit", "b"))), {0: ("word", "a")},
                    ["a b", "a b c", "a"], MODES, [("parse", False), ("parse", True)]))
+    # the witnesses of the recorded findings F-03b..e always run
+    W, Wc = ("word", "ab"), ("act", ("cond", 3, False, 1), ("word", "ab"))
+    groups.append((("and", ("opt", ("fwd", 0)), ("fwd", 0)), {0: W}, ["zz", "a b"], MODES, [("parse", False)]))
+    groups.append((("mf", ("fwd", 0), ("skipto", ("fwd", 0))), {0: Wc}, ["ab"], MODES, [("parse", False)]))
+    groups.append((("mf", ("and", ("fwd", 0), ("lit", "q")), ("or", ("and", ("fwd", 0), ("lit", "x")), W)), {0: ("mf", ("and", Wc, ("lit", "x")), W)},
+                   ["ab x"], MODES, [("parse", False)]))
+    groups.append((("fwd", 0), {0: ("and", Wc, ("lit", "x"))}, ["ab y"], MODES, [("parse", False)]))
     stats = {}
     recs = corr.run_groups(groups, stats=stats)
+    fh = {}
+    for r in recs:
+        if r["mode"][0] == "lr":
+            k = ",".join(r.get("flags") or ()) or "clean"
+            fh[k] = fh.get(k, 0) + 1
+    ctx.coverage_extra["model_flag_histogram"] = fh
     ctx.coverage_extra["class_histogram"] = stats.get("classes", {})
     pcommon.outcome_hist(ctx, recs)
     pcommon.model_agreement(ctx, recs, "lr-outcomes")
@@ -73,12 +108,7 @@ def correspond(ctx):
                     g, env, inp = shr.shrink(r["g"], r["env"], r["inp"], fails, budget=80)
                 except Exception:
                     g, env, inp = r["g"], r["env"], r["inp"]
-                a = pcommon.single(g, env, inp, ("none",), r["entry"])
-                b = pcommon.single(g, env, inp, mode, r["entry"])
-                ctx.violation("outcome:%r|%r|%r|%r|%r" % (g, env, inp, mode, r["entry"]),
-                              "enable_left_recursion(%r) changes the outcome of %r (env %r) on %r: off=%r on=%r" % (
-                                  mode[1], g, env, inp, corr.proj_all(a["real"]), corr.proj_all(b["real"])),
-                              {"kind": "outcome", "grammar": g, "env": env, "input": inp, "mode": mode, "entry": r["entry"]})
+                report(ctx, g, env, inp, mode, r["entry"])
     ctx.sample({"grammar": groups[-1][0], "env": groups[-1][1], "inputs": groups[-1][2], "modes": MODES})
 
 
@@ -102,10 +132,10 @@ def search(ctx, reasons):
             for mode, r in d.items():
                 ctx.stat("search_cases")
                 if base is not None and corr.proj_all(r["real"]) != corr.proj_all(base["real"]):
-                    ctx.violation("outcome:%r|%r|%r|%r|%r" % (r["g"], r["env"], r["inp"], mode, r["entry"]),
-                                  "enable_left_recursion(%r) changes the outcome of %r on %r" % (mode[1], r["g"], r["inp"]),
-                                  {"kind": "outcome", "grammar": r["g"], "env": r["env"], "input": r["inp"], "mode": mode, "entry": r["entry"]})
-                    return
+                    n0 = len(ctx.violations)
+                    report(ctx, r["g"], r["env"], r["inp"], mode, r["entry"])
+                    if len(ctx.violations) > n0:
+                        return
 
 
 def _tuplify(x):
